@@ -6,8 +6,8 @@ NAME=$1; SRC=$2
 W=/tmp/confirm/$NAME
 rm -rf $W; git -C /repo worktree prune; git -C /repo worktree add --detach $W HEAD >/dev/null 2>&1 || { echo "worktree failed"; exit 3; }
 cd $W && git apply $SRC/patch.diff || { echo "RESULT $NAME patch-does-not-apply"; exit 3; }
-BUILT=$(cd /verif && OCV_REPO=$W /verif/.venv/bin/python -m ocv.build 2>/tmp/confirm/$NAME.build.log) || { echo "RESULT $NAME build-failed"; exit 3; }
-BASE=$(cd /verif && /verif/.venv/bin/python -m ocv.build)
+BUILT=$(cd /verif && OCV_REPO=$W /verif/.venv/bin/python -m ocv.build 2>/tmp/confirm/$NAME.build.log | tail -1) || { echo "RESULT $NAME build-failed"; exit 3; }
+BASE=$(cd /verif && /verif/.venv/bin/python -m ocv.build | tail -1)
 PYTHONPATH=$BUILT timeout 300 /venv/bin/python $SRC/demo.py >/tmp/confirm/$NAME.demo_changed.log 2>&1; RC1=$?
 PYTHONPATH=$BASE timeout 300 /venv/bin/python $SRC/demo.py >/tmp/confirm/$NAME.demo_base.log 2>&1; RC0=$?
 cp $BUILT/optree/_C.cpython-312-x86_64-linux-gnu.so $W/optree/
